@@ -24,7 +24,31 @@ type plainReader struct{ r io.Reader }
 
 func (p plainReader) Read(b []byte) (int, error) { return p.r.Read(b) }
 
-var inCarriers = []string{"[]byte", "string", "*bytes.Buffer", "*bytes.Reader", "*strings.Reader", "io.Reader", "[][]byte"}
+var inCarriers = []string{"[]byte", "string", "*bytes.Buffer", "*bytes.Reader", "*strings.Reader", "io.Reader", "[][]byte", "io.Reader/data+EOF", "io.Reader/short-reads"}
+
+// fragReader: a plain io.Reader (not a WriterTo) with scripted behaviour: at most `max` bytes per
+// Read (0 = unlimited), the last bytes optionally delivered together with io.EOF.
+type fragReader struct {
+	data    []byte
+	max     int
+	withEOF bool
+}
+
+func (r *fragReader) Read(p []byte) (int, error) {
+	if len(r.data) == 0 {
+		return 0, io.EOF
+	}
+	n := len(p)
+	if r.max > 0 && n > r.max {
+		n = r.max
+	}
+	n = copy(p[:n], r.data)
+	r.data = r.data[n:]
+	if len(r.data) == 0 && r.withEOF {
+		return n, io.EOF
+	}
+	return n, nil
+}
 
 // carry wraps b; scribble (may be nil) overwrites the memory the carrier aliases.
 func carry(kind string, b []byte) (msg any, scribble func()) {
@@ -45,6 +69,10 @@ func carry(kind string, b []byte) (msg any, scribble func()) {
 		return strings.NewReader(string(b)), nil
 	case "io.Reader":
 		return plainReader{bytes.NewReader(own)}, scr
+	case "io.Reader/data+EOF":
+		return &fragReader{data: own, withEOF: true}, scr
+	case "io.Reader/short-reads":
+		return &fragReader{data: own, max: 3, withEOF: len(own)%2 == 1}, scr
 	case "[][]byte":
 		h := len(own) / 2
 		return [][]byte{own[:h], own[h:]}, scr
